@@ -75,8 +75,11 @@ class TaskHandler:
     def flush(self):
         """Await completion of all pending tasks."""
         self._open = False
-        if len(self._pending) > 0:
-            for key in dict(self._pending).keys():
-                get = self._pending.get(key)
-                if get is not None:
-                    self._pending[key].result(10)
+        # wait on a copy, tasks remove themselves from the pending map as they complete
+        for future in list(self._pending.values()):
+            try:
+                # we only wait for the task to finish. The outcome of the task is logged by its done callback, and
+                # must not be raised here, or we would stop waiting for the remaining tasks.
+                future.exception(10)
+            except Exception:
+                logging.exception("Task did not complete during flush %s", future)
